@@ -396,11 +396,293 @@ func synthBox(t *sim.Tape, rnd *sim.Rand) []byte {
 	default:
 		rnd.Fill(pl)
 	}
+	if t.Chance(700) {
+		if tp := typedPayload(typ, t, rnd); tp != nil {
+			pl, n = tp, len(tp)
+		}
+	}
 	out := make([]byte, 8+n)
 	out[0], out[1], out[2], out[3] = byte((8+n)>>24), byte((8+n)>>16), byte((8+n)>>8), byte(8+n)
 	copy(out[4:], typ)
 	copy(out[8:], pl)
 	return out
+}
+
+// typedPayload builds a size-consistent payload for the box types whose layout depends on version, flag bits and
+// entry counts (written from ISO/IEC 14496-12 / 23001-7): a seeded subset of the defined flag bits, a seeded
+// version, 0-3 entries with small seeded values. nil = no typed generator for this type.
+func typedPayload(typ string, t *sim.Tape, rnd *sim.Rand) []byte {
+	var p []byte
+	u8 := func(v int) { p = append(p, byte(v)) }
+	u16 := func(v int) { p = append(p, byte(v>>8), byte(v)) }
+	u32 := func(v uint32) { p = append(p, byte(v>>24), byte(v>>16), byte(v>>8), byte(v)) }
+	u64 := func(v uint64) { u32(uint32(v >> 32)); u32(uint32(v)) }
+	val := func() uint32 { // small, boundary or random
+		switch t.Draw(4) {
+		case 0:
+			return uint32(t.Draw(4))
+		case 1:
+			return uint32(t.Draw(1 << 16))
+		case 2:
+			return []uint32{0x7fffffff, 0x80000000, 0xffffffff, 0x02000000, 0x01010000}[t.Draw(5)]
+		}
+		return uint32(rnd.U64())
+	}
+	subset := func(bits ...uint32) uint32 {
+		var f uint32
+		for _, b := range bits {
+			if t.Bool() {
+				f |= b
+			}
+		}
+		return f
+	}
+	vf := func(ver int, flags uint32) { u32(uint32(ver)<<24 | flags) }
+	cnt := t.Draw(4)
+	switch typ {
+	case "trun":
+		fl := subset(0x1, 0x4, 0x100, 0x200, 0x400, 0x800)
+		vf(t.Draw(2), fl)
+		u32(uint32(cnt))
+		if fl&0x1 != 0 {
+			u32(val())
+		}
+		if fl&0x4 != 0 {
+			u32(val())
+		}
+		for i := 0; i < cnt; i++ {
+			for _, b := range []uint32{0x100, 0x200, 0x400, 0x800} {
+				if fl&b != 0 {
+					u32(val())
+				}
+			}
+		}
+	case "tfhd":
+		fl := subset(0x1, 0x2, 0x8, 0x10, 0x20, 0x10000, 0x20000)
+		vf(0, fl)
+		u32(1 + uint32(t.Draw(3)))
+		if fl&0x1 != 0 {
+			u64(uint64(val()))
+		}
+		for _, b := range []uint32{0x2, 0x8, 0x10, 0x20} {
+			if fl&b != 0 {
+				u32(val())
+			}
+		}
+	case "saiz":
+		fl := subset(0x1)
+		vf(0, fl)
+		if fl != 0 {
+			u32(val())
+			u32(val())
+		}
+		def := t.Draw(3) * 8
+		u8(def)
+		u32(uint32(cnt))
+		if def == 0 {
+			for i := 0; i < cnt; i++ {
+				u8(t.Draw(256))
+			}
+		}
+	case "saio":
+		fl := subset(0x1)
+		ver := t.Draw(2)
+		vf(ver, fl)
+		if fl != 0 {
+			u32(val())
+			u32(val())
+		}
+		u32(uint32(cnt))
+		for i := 0; i < cnt; i++ {
+			if ver == 0 {
+				u32(val())
+			} else {
+				u64(uint64(val()))
+			}
+		}
+	case "sbgp":
+		ver := t.Draw(2)
+		vf(ver, 0)
+		p = append(p, []string{"roll", "seig", "rap ", "zzzz"}[t.Draw(4)]...)
+		if ver == 1 {
+			u32(val())
+		}
+		u32(uint32(cnt))
+		for i := 0; i < cnt; i++ {
+			u32(val())
+			u32(val())
+		}
+	case "subs":
+		ver := t.Draw(2)
+		vf(ver, subset(0x1, 0x2))
+		u32(uint32(cnt))
+		for i := 0; i < cnt; i++ {
+			u32(val())
+			sc := t.Draw(3)
+			u16(sc)
+			for j := 0; j < sc; j++ {
+				if ver == 1 {
+					u32(val())
+				} else {
+					u16(int(val() & 0xffff))
+				}
+				u8(t.Draw(256))
+				u8(t.Draw(2))
+				u32(val())
+			}
+		}
+	case "ctts", "stts", "stsc", "stss", "stco", "co64":
+		ver := 0
+		if typ == "ctts" {
+			ver = t.Draw(2)
+		}
+		vf(ver, 0)
+		u32(uint32(cnt))
+		per := map[string]int{"ctts": 2, "stts": 2, "stsc": 3, "stss": 1, "stco": 1, "co64": 2}[typ]
+		for i := 0; i < cnt*per; i++ {
+			u32(val())
+		}
+	case "stsz":
+		vf(0, 0)
+		sz := uint32(t.Draw(2)) * val()
+		u32(sz)
+		u32(uint32(cnt))
+		if sz == 0 {
+			for i := 0; i < cnt; i++ {
+				u32(val())
+			}
+		}
+	case "elst":
+		ver := t.Draw(2)
+		vf(ver, 0)
+		u32(uint32(cnt))
+		for i := 0; i < cnt; i++ {
+			if ver == 1 {
+				u64(uint64(val()))
+				u64(uint64(val()))
+			} else {
+				u32(val())
+				u32(val())
+			}
+			u16(t.Draw(3))
+			u16(t.Draw(2))
+		}
+	case "sidx":
+		ver := t.Draw(2)
+		vf(ver, 0)
+		u32(1)
+		u32(1 + val()%90000)
+		if ver == 0 {
+			u32(val())
+			u32(val())
+		} else {
+			u64(uint64(val()))
+			u64(uint64(val()))
+		}
+		u16(0)
+		u16(cnt)
+		for i := 0; i < cnt; i++ {
+			u32(val())
+			u32(val())
+			u32(val())
+		}
+	case "tfra":
+		ver := t.Draw(2)
+		vf(ver, 0)
+		u32(1)
+		l := t.Draw(64)
+		u32(uint32(l))
+		u32(uint32(cnt))
+		for i := 0; i < cnt; i++ {
+			if ver == 1 {
+				u64(uint64(val()))
+				u64(uint64(val()))
+			} else {
+				u32(val())
+				u32(val())
+			}
+			for _, w := range []int{l >> 4 & 3, l >> 2 & 3, l & 3} {
+				for k := 0; k <= w; k++ {
+					u8(t.Draw(256))
+				}
+			}
+		}
+	case "emsg":
+		ver := t.Draw(2)
+		vf(ver, 0)
+		str := func() { p = append(p, []string{"", "a", "urn:x"}[t.Draw(3)]...); u8(0) }
+		if ver == 0 {
+			str()
+			str()
+			u32(val())
+			u32(val())
+			u32(val())
+			u32(val())
+		} else {
+			u32(val())
+			u64(uint64(val()))
+			u32(val())
+			u32(val())
+			str()
+			str()
+		}
+		for i := 0; i < cnt; i++ {
+			u8(t.Draw(256))
+		}
+	case "mvhd", "mdhd", "tkhd", "mehd", "tfdt":
+		ver := t.Draw(2)
+		vf(ver, subset(0x1, 0x2, 0x4))
+		w := func() {
+			if ver == 1 {
+				u64(uint64(val()) << uint(t.Draw(2)*8))
+			} else {
+				u32(val())
+			}
+		}
+		switch typ {
+		case "tfdt", "mehd":
+			w()
+		case "mdhd":
+			w()
+			w()
+			u32(1 + val()%90000)
+			w()
+			u16(t.Draw(1 << 15))
+			u16(0)
+		case "mvhd":
+			w()
+			w()
+			u32(1 + val()%90000)
+			w()
+			u32(0x00010000)
+			u16(0x0100)
+			p = append(p, make([]byte, 10)...)
+			for _, m := range []uint32{0x10000, 0, 0, 0, 0x10000, 0, 0, 0, 0x40000000} {
+				u32(m)
+			}
+			p = append(p, make([]byte, 24)...)
+			u32(val())
+		case "tkhd":
+			w()
+			w()
+			u32(1 + uint32(t.Draw(3)))
+			u32(0)
+			w()
+			p = append(p, make([]byte, 8)...)
+			u16(t.Draw(2))
+			u16(t.Draw(2))
+			u16(t.Draw(2) << 8)
+			u16(0)
+			for _, m := range []uint32{0x10000, 0, 0, 0, 0x10000, 0, 0, 0, 0x40000000} {
+				u32(m)
+			}
+			u32(val())
+			u32(val())
+		}
+	default:
+		return nil
+	}
+	return p
 }
 
 // c03LeafBox: box-level interchangeability for every registered box type. A seeded box is normalised through one path
@@ -505,12 +787,13 @@ func c03Encoders(r *sim.Run) {
 	order := t.Bool() // which encoder runs first (both mutate the object when optimising)
 	var wOut, sOut []byte
 	var wErr, sErr, sAcc error
-	var size int
+	var size, nWrites int
 	r.Guard("Size", func() { size = int(o.Size()) })
 	runW := func() {
 		s := sim.NewSink(nil)
 		wErr = encodeTo(r, "Encode", o, s)
 		wOut = s.Buf
+		nWrites = s.Writes
 	}
 	runS := func() {
 		// generous capacity: Size() may legitimately change when optimisation rewrites the trun
@@ -554,6 +837,16 @@ func c03Encoders(r *sim.Run) {
 			r.Violate("c03-encoders-capacity", "%s: with capacity %d (encoding is %d bytes) Encode err=%v but EncodeSW err=%v (accumulated error %v)", nd.desc, c, n, e1, e2, a2)
 		}
 	}
+	// a transient device error: write k is refused, later writes are accepted again. If Encode still reports success,
+	// its bytes are not the ones EncodeSW produces.
+	if nWrites > 0 {
+		s := sim.NewSink(r)
+		s.FailAtOp = 1 + t.Draw(nWrites)
+		e1 := encodeTo(r, "Encode(write error)", o, s)
+		if e1 == nil && s.Failed && !bytes.Equal(s.Buf, sOut) {
+			r.Violate("c03-encoders-write-error", "%s: Encode reported success although write #%d of %d was refused; it delivered %d bytes, EncodeSW produces %d", nd.desc, s.FailAtOp, nWrites, len(s.Buf), len(sOut))
+		}
+	}
 }
 
 func init() {
@@ -569,7 +862,7 @@ func init() {
 		Runs:       map[string]int{"quick": 200000, "thorough": 8000000},
 		Setup:      c03Setup,
 		Run:        c03Run,
-		WantFaults: []string{"read-short", "read-zero", "read-data+eof", "read-eio", "disk-truncated", "unit-spliced", "unit-duplicated", "unit-reordered", "unit-moved", "unit-dropped", "slice-short", "write-full"},
+		WantFaults: []string{"read-short", "read-zero", "read-data+eof", "read-eio", "disk-truncated", "unit-spliced", "unit-duplicated", "unit-reordered", "unit-moved", "unit-dropped", "slice-short", "write-full", "write-eio"},
 		WantProbes: []string{"canonical-X", "cut-on-box-boundary", "leaf-canonical"},
 	})
 }
